@@ -11,6 +11,7 @@ type RenderOpts struct {
 	BanglaDigits bool              // write numeric literals with Bangla digits
 	Rename       map[string]string // identifier renaming (C18d)
 	Sep          string            // separator between tokens on a line (default one blank)
+	OneLine      bool              // drop the line structure: the whole program on one line
 }
 
 // canonToLiteral turns a canonical number string of the specification (mantissa e exponent, see Host) into a
@@ -81,6 +82,9 @@ func Render(toks []string, o *RenderOpts) (string, error) {
 			n, err := strconv.Atoi(t[2:])
 			if err != nil {
 				return "", err
+			}
+			if o != nil && o.OneLine {
+				continue
 			}
 			// a gap of blank lines is layout: it is filled, in turn, with nothing, with line comments, or with one block
 			// comment that begins on the line before and runs through the gap (line numbers must survive all three)
